@@ -5,8 +5,9 @@ import DustVerif.Model.Partition
     * the empty list behaves exactly like the list `[""]` (DDS 1.4 2.2.3.13: the empty sequence IS the default partition "";
       repaired defect D20a, regression witness on `partitionMatchOld`);
     * on pattern-free lists — empty ones included — the verdict is exactly the DDS rule "some name in common";
-    * still open: a pattern is matched against the other side's PATTERNS as if they were names (D20b), and `+` is a regex
-      quantifier (D20c; two tests of the repository rely on it). -/
+    * an expression is matched against the NAMES of the other side only (repaired defect D20b, regression witness on
+      `partitionMatchOldB`), and on all lists of expressions and clean names the verdict is the DDS rule (`C15_partition_spec`);
+    * still open: `+` is a regex quantifier (D20c; two tests of the repository rely on it). -/
 namespace DustVerif.Partition
 
 /-! ### symmetry -/
@@ -57,24 +58,36 @@ example : writerSideMatch ["A1".toList, "B1".toList] ["A*".toList] = true ∧ re
 theorem globMatch_nil (n : Name) : globMatch [] n = n.isEmpty := by
   simp [globMatch, parsePat, parseAux, matchP]
 
+theorem anyPatternMatch_iff (ps ns : List Name) :
+    anyPatternMatch ps ns = true ↔ ∃ p, p ∈ ps ∧ ∃ n, n ∈ ns ∧ isPattern n = false ∧ globMatch p n = true := by
+  simp [anyPatternMatch, nameMatches, List.any_eq_true]
+
+theorem isPattern_nil : isPattern [] = false := rfl
+
 theorem partitionMatch_nil_cons (x : Name) (xs : List Name) : partitionMatch [] (x :: xs) = matchesDefault (x :: xs) := by
   simp [partitionMatch, defaultMatch, anyCommonName, anyPatternMatch, nameMatches]
 
+theorem matchesDefault_iff (b : List Name) : matchesDefault b = true ↔ ∃ n, n ∈ b ∧ (n = [] ∨ globMatch n [] = true) := by
+  simp [matchesDefault, List.any_eq_true, List.isEmpty_iff]
+
 theorem partitionMatch_emptyName_cons (x : Name) (xs : List Name) :
     partitionMatch [[]] (x :: xs) = matchesDefault (x :: xs) := by
-  rw [Bool.eq_iff_iff]
-  simp only [partitionMatch, defaultMatch, anyCommonName, anyPatternMatch, nameMatches, matchesDefault, globMatch_nil,
-    Bool.or_eq_true, Bool.and_eq_true, List.any_eq_true, beq_iff_eq, List.isEmpty_iff, List.contains_iff_mem,
-    List.mem_singleton, exists_eq_left, reduceCtorEq, false_and, or_false]
+  rw [Bool.eq_iff_iff, matchesDefault_iff]
+  have hd : defaultMatch [[]] (x :: xs) = false := by simp [defaultMatch]
+  simp only [partitionMatch, Bool.or_eq_true, beq_iff_eq, anyCommonName_iff, anyPatternMatch_iff, hd, Bool.false_eq_true, or_false,
+    List.mem_singleton]
   constructor
-  · rintro (((h | h) | ⟨n, hn, hm⟩) | ⟨n, hn, hm⟩)
+  · rintro (((h | ⟨n, hn, hm⟩) | ⟨p, hp, n, hn, _, hm⟩) | ⟨p, hp, n, hn, _, hm⟩)
     · exact ⟨[], by rw [← h]; simp, Or.inl rfl⟩
-    · exact ⟨[], h, Or.inl rfl⟩
-    · exact ⟨n, hn, Or.inl hm⟩
-    · exact ⟨n, hn, Or.inr hm⟩
+    · exact ⟨[], hn ▸ hm, Or.inl rfl⟩
+    · subst hp
+      rw [globMatch_nil] at hm
+      exact ⟨n, hn, Or.inl (List.isEmpty_iff.mp hm)⟩
+    · subst hn
+      exact ⟨p, hp, Or.inr hm⟩
   · rintro ⟨n, hn, hm | hm⟩
-    · exact Or.inl (Or.inr ⟨n, hn, hm⟩)
-    · exact Or.inr ⟨n, hn, hm⟩
+    · exact Or.inl (Or.inl (Or.inr ⟨[], rfl, hm ▸ hn⟩))
+    · exact Or.inr ⟨n, hn, [], rfl, isPattern_nil, hm⟩
 
 /-- C15 (partition, empty list = default partition): for ALL lists `b`, patterns included, the empty name list gets exactly the
     verdict of the list `[""]` — on either side (`C15_partition_symmetric`) -/
@@ -138,19 +151,27 @@ theorem globMatch_plain (p n : Name) (h : plainName p = true) : globMatch p n = 
   rw [parsePat_plain p h]
   exact matchP_lits p n
 
+theorem plain_not_pattern (n : Name) (h : plainName n = true) : isPattern n = false := by
+  simp only [plainName, List.all_eq_true, Bool.not_eq_true'] at h
+  cases hp : isPattern n with
+  | false => rfl
+  | true =>
+    simp only [isPattern, List.any_eq_true, Bool.or_eq_true, beq_iff_eq] at hp
+    obtain ⟨c, hc, hm⟩ := hp
+    have := h c hc
+    rcases hm with (rfl | rfl) | rfl <;> simp [isMeta] at this
+
 theorem anyPatternMatch_plain (ps ns : List Name) (h : plainList ps = true) :
     anyPatternMatch ps ns = true ↔ ∃ n, n ∈ ps ∧ n ∈ ns := by
-  simp only [anyPatternMatch, nameMatches, List.any_eq_true]
+  rw [anyPatternMatch_iff]
   constructor
-  · rintro ⟨p, hp, n, hn, hm⟩
-    have hpl : plainName p = true := by
-      have := List.all_eq_true.mp h p hp
-      exact this
+  · rintro ⟨p, hp, n, hn, _, hm⟩
+    have hpl : plainName p = true := List.all_eq_true.mp h p hp
     have := (globMatch_plain p n hpl).mp hm
     exact ⟨p, hp, this ▸ hn⟩
   · rintro ⟨n, h1, h2⟩
     have hpl : plainName n = true := List.all_eq_true.mp h n h1
-    exact ⟨n, h1, n, h2, (globMatch_plain n n hpl).mpr rfl⟩
+    exact ⟨n, h1, n, h2, plain_not_pattern n hpl, (globMatch_plain n n hpl).mpr rfl⟩
 
 /-- the DDS rule on pattern-free lists: the empty sequence stands for the partition "" -/
 def normalise (l : List Name) : List Name := if l.isEmpty then [[]] else l
@@ -367,10 +388,96 @@ theorem C15_partition_star_matches_all (n : Name) (h : ∀ c ∈ n, c ≠ '\n') 
 
 /-! ### patterns (D20) -/
 
-/-- D20: a pattern is tested against the other side's PATTERNS as if they were names: `A*` "matches" `A?`, although no
-    partition name is required to exist that both accept … and DDS says two patterns never match each other -/
+/-- regression witness for the repaired defect D20b: before the repair an expression was tested against the other side's
+    EXPRESSIONS as if they were names: `A*` "matched" `A?`. Now it does not; identical strings are still equal names
+    (`A*` on both sides), and `A*` still matches the name `A1` -/
 theorem C15_partition_pattern_vs_pattern_counterexample :
-    partitionMatch ["A*".toList] ["A?".toList] = true ∧ partitionMatch ["A*".toList] ["B*".toList] = false := by decide
+    partitionMatchOldB ["A*".toList] ["A?".toList] = true ∧ partitionMatch ["A*".toList] ["A?".toList] = false ∧
+    partitionMatch ["A*".toList] ["A*".toList] = true ∧ partitionMatch ["A*".toList] ["A1".toList, "B*".toList] = true ∧
+    partitionMatch ["A*".toList] ["B*".toList] = false := by decide
+
+/-! ### the DDS partition rule, expressions included -/
+
+/-- do the entries `x` and `y` of the two sides match? DDS 1.4 2.2.3.13 as read here: equal strings are equal names; otherwise an
+    expression (an entry with `*`, `?`, `[`) is matched against a NAME of the other side; two expressions are not matched
+    against each other -/
+def EntryMatch (x y : Name) : Prop :=
+  x = y ∨ (isPattern x = true ∧ isPattern y = false ∧ globMatch x y = true) ∨
+    (isPattern y = true ∧ isPattern x = false ∧ globMatch y x = true)
+
+/-- the DDS partition rule: some entry of one side matches some entry of the other, the empty sequence standing for `[""]` -/
+def SpecMatch (a b : List Name) : Prop := ∃ x, x ∈ normalise a ∧ ∃ y, y ∈ normalise b ∧ EntryMatch x y
+
+/-- every entry is an expression or a name without glob / regex characters (this excludes names with `+`, `]`, `\`:
+    finding D20c and the patterns outside the model) -/
+def cleanList (l : List Name) : Bool := l.all (fun n => isPattern n || plainName n)
+
+theorem partitionMatch_spec_nonempty (a b : List Name) (ha : cleanList a = true) (hb : cleanList b = true)
+    (hae : a ≠ []) (hbe : b ≠ []) :
+    partitionMatch a b = true ↔ ∃ x, x ∈ a ∧ ∃ y, y ∈ b ∧ EntryMatch x y := by
+  have hd : defaultMatch a b = false := by
+    cases a with
+    | nil => exact absurd rfl hae
+    | cons x xs => cases b with
+      | nil => exact absurd rfl hbe
+      | cons y ys => simp [defaultMatch]
+  have clean : ∀ l : List Name, cleanList l = true → ∀ n ∈ l, isPattern n = false → plainName n = true := by
+    intro l hl n hn hp
+    have := List.all_eq_true.mp hl n hn
+    simpa [hp] using this
+  unfold partitionMatch
+  simp only [Bool.or_eq_true, beq_iff_eq, anyCommonName_iff, anyPatternMatch_iff, hd, Bool.false_eq_true, or_false]
+  constructor
+  · rintro (((h | ⟨n, h1, h2⟩) | ⟨p, hp, n, hn, hnp, hm⟩) | ⟨p, hp, n, hn, hnp, hm⟩)
+    · subst h
+      cases a with
+      | nil => exact absurd rfl hae
+      | cons x xs => exact ⟨x, by simp, x, by simp, Or.inl rfl⟩
+    · exact ⟨n, h1, n, h2, Or.inl rfl⟩
+    · cases hpp : isPattern p with
+      | true => exact ⟨p, hp, n, hn, Or.inr (Or.inl ⟨hpp, hnp, hm⟩)⟩
+      | false =>
+        have := (globMatch_plain p n (clean a ha p hp hpp)).mp hm
+        exact ⟨p, hp, n, hn, Or.inl this.symm⟩
+    · cases hpp : isPattern p with
+      | true => exact ⟨n, hn, p, hp, Or.inr (Or.inr ⟨hpp, hnp, hm⟩)⟩
+      | false =>
+        have := (globMatch_plain p n (clean b hb p hp hpp)).mp hm
+        exact ⟨n, hn, p, hp, Or.inl this⟩
+  · rintro ⟨x, hx, y, hy, h | ⟨h1, h2, h3⟩ | ⟨h1, h2, h3⟩⟩
+    · exact Or.inl (Or.inl (Or.inr ⟨x, hx, h ▸ hy⟩))
+    · exact Or.inl (Or.inr ⟨x, hx, y, hy, h2, h3⟩)
+    · exact Or.inr ⟨y, hy, x, hx, h2, h3⟩
+
+/-- C15 (partition = the DDS rule): for ALL lists whose entries are expressions of the modelled subset or names without glob /
+    regex characters — the empty list on one or both sides included — the verdict of the code is the DDS partition rule: some
+    entry of one side matches some entry of the other, where equal strings match, an expression matches the names it describes,
+    and two different expressions never match each other -/
+theorem C15_partition_spec (a b : List Name) (ha : cleanList a = true) (hb : cleanList b = true) :
+    partitionMatch a b = true ↔ SpecMatch a b := by
+  have hp : cleanList [[]] = true := by decide
+  unfold SpecMatch
+  cases a with
+  | nil =>
+    cases b with
+    | nil => exact ⟨fun _ => ⟨[], by simp [normalise], [], by simp [normalise], Or.inl rfl⟩, fun _ => by decide⟩
+    | cons y ys =>
+      rw [C15_partition_empty_is_default]
+      have := partitionMatch_spec_nonempty [[]] (y :: ys) hp hb (by simp) (by simp)
+      simpa [normalise] using this
+  | cons x xs =>
+    cases b with
+    | nil =>
+      rw [C15_partition_symmetric, C15_partition_empty_is_default, C15_partition_symmetric]
+      have := partitionMatch_spec_nonempty (x :: xs) [[]] ha hp (by simp) (by simp)
+      simpa [normalise] using this
+    | cons y ys =>
+      have := partitionMatch_spec_nonempty (x :: xs) (y :: ys) ha hb (by simp) (by simp)
+      simpa [normalise] using this
+
+example : cleanList ["A*".toList, "B1".toList] = true ∧ cleanList ["?1".toList, []] = true ∧ cleanList ["a+".toList] = false := by
+  decide
+
 
 /-- D20c (open): `+` is not a glob character, but the translation emits it as the regex quantifier: the name `a+` matches `aa`
     (and does not match the name `a+` through the pattern path — only through name equality) -/
